@@ -149,6 +149,31 @@ def coverage_world(seed, kinds, annotated=False):
             names.append(r.name)
             w.make_read("chr1", [(start - 1500, start - 1010)], name=r.name, flag=256, mapq=60, truth={"cluster": len(clusters), "kind": kind, "bridge-secondary": True})
             end = gx[3][1]
+        elif kind == "no_match_spliced":
+            # a gene with two isoforms sharing their first (last) two exons; spliced reads that follow those two exons and continue with two
+            # exons OUTSIDE the gene: they contradict both isoforms equally and lie mostly outside them, so that no isoform is named at all
+            from vlib.world import Gene, Transcript
+            strand = rng.choice("+-")
+            base = start + 3500
+            a_ = [(base, base + 300), (base + 1000, base + 1200), (base + 2000, base + 2300), (base + 3000, base + 3400)]
+            gn = Gene("GN%d" % len(clusters), "chr1", strand)
+            gn.transcripts.append(Transcript(gn.id + ".t1", gn.id, "chr1", strand, list(a_), True, "two-isoforms"))
+            gn.transcripts.append(Transcript(gn.id + ".t2", gn.id, "chr1", strand, [a_[0], a_[1], a_[3]], True, "two-isoforms"))
+            gn.transcripts.append(Transcript(gn.id + ".t3", gn.id, "chr1", strand, [a_[0], a_[2], a_[3]], True, "two-isoforms"))
+            for t_ in gn.transcripts:
+                for intr in t_.introns:
+                    w.plant_sites("chr1", intr, strand)
+            w.genes.append(gn)
+            for k in range(4):
+                r = w.make_read("chr1", list(a_), truth={"cluster": len(clusters), "kind": kind})
+                names.append(r.name)
+            for k in range(3):
+                up = [(base - 3000 + 10 * k, base - 2700), (base - 2000, base - 1800), (base - 900, a_[0][1]), a_[1]]
+                down = [a_[2], (a_[3][0], a_[3][1] + 900), (a_[3][1] + 1800, a_[3][1] + 2000), (a_[3][1] + 2700, a_[3][1] + 3000 - 10 * k)]
+                for ex in (up, down):
+                    r = w.make_read("chr1", ex, truth={"cluster": len(clusters), "kind": kind, "class": "spliced-read-without-any-isoform-match"})
+                    names.append(r.name)
+            end = a_[3][1] + 3000
         elif kind == "lowmapq_spliced":
             # gene-free locus: alignments with 3 and 4 exons and MAPQ 0 / 1 / 60 (the documented MAPQ filter concerns alignments with 1 or 2
             # exons only), plus 1- and 2-exon alignments with MAPQ >= 1
@@ -291,12 +316,12 @@ def run(chk, scratch):
     thorough = chk.tier == "thorough"
     chk.rule = ("generated coverage profiles: >=1024-read pile-ups inside one and two 256-bp bins, dense blocks separated by thin valleys at random "
                 "offsets relative to the bins, a valley followed by short reads lying only in the last bin, >32 kb sparse clusters, spliced reads bridging "
-                "blocks, a gene over a coverage-1 stretch whose only bridging read also has a secondary alignment elsewhere, small clusters; supplementary and unmapped records as labelled filtered categories; x {BAM storage, in-memory storage} x "
+                "blocks, a gene over a coverage-1 stretch whose only bridging read also has a secondary alignment elsewhere, spliced reads that leave a two-isoform gene and name no isoform at all, small clusters; supplementary and unmapped records as labelled filtered categories; x {BAM storage, in-memory storage} x "
                 "{annotation-free, annotated}; in-process collector + CLI runs. non-trivial = distinct (cluster kind, #regions returned, storage, annotated) "
                 "tuples where the cluster was split into >=2 regions or fell into the single-bin case")
     n_inproc = 40 if thorough else 6
     n_cli = 10 if thorough else 2
-    kind_sets = [["pile1bin", "valleys", "small", "lowmapq_spliced"], ["valleys_tail", "long_sparse", "gene_valley", "lowmapq_spliced"], ["pile2bins", "bridged", "valleys"],
+    kind_sets = [["pile1bin", "valleys", "small", "lowmapq_spliced"], ["valleys_tail", "long_sparse", "gene_valley", "lowmapq_spliced", "no_match_spliced"], ["pile2bins", "bridged", "valleys", "no_match_spliced"],
                  ["valleys_tail", "pile1bin"], ["long_sparse", "valleys", "small"], ["bridged", "valleys_tail"]]
     jobs = []
     worlds = {}
